@@ -303,6 +303,25 @@ func surelyWants(adds, rems []ival) (bool, int) {
 	return false, 0
 }
 
+// listedWant: the server still lists c at quiescence; that is consistent with the calls only if some
+// want for c is not followed by a removal that started after it returned. A removal that merely
+// OVERLAPS the want does not excuse the entry: had it taken effect last, the entry would be gone, so
+// the want took effect last, was accepted and has to be answered.
+func listedWant(adds, rems []ival) (bool, int) {
+	for _, a := range adds {
+		ok := true
+		for _, k := range rems {
+			if k.start > a.ret {
+				ok = false
+			}
+		}
+		if ok {
+			return true, a.start
+		}
+	}
+	return false, 0
+}
+
 func (x *cexec) Check(res *vsched.Result) *eng.Violation {
 	logStr := x.logString()
 	w := x.w
@@ -345,7 +364,14 @@ func (x *cexec) Check(res *vsched.Result) *eng.Violation {
 				return eng.V("block-denied-by-filter", "", fmt.Sprintf("block %s sent to p%d\n%s", cname(c), r+1, logStr))
 			}
 			if !mayWant(adds, rems, e.start, e.ret, false) {
-				return eng.V("block-not-wanted", "", fmt.Sprintf("block %s sent to p%d in the envelope built during [%d..%d] although under every ordering of the overlapping calls the peer's want-list did not contain it then\n%s", cname(c), r+1, e.start, e.ret, logStr), "concurrent", "true")
+				// classification: was the block announced (NotifyNewBlocks) while the removal of the want was running?
+				announced := false
+				for _, k := range rems {
+					if c == cC && putStart < k.ret && putRet > k.start {
+						announced = true
+					}
+				}
+				return eng.V("block-not-wanted", "", fmt.Sprintf("block %s sent to p%d in the envelope built during [%d..%d] although under every ordering of the overlapping calls the peer's want-list did not contain it then\n%s", cname(c), r+1, e.start, e.ret, logStr), "concurrent", "true", "announced_while_want_was_removed", fmt.Sprint(announced))
 			}
 		}
 		for _, c := range e.haves {
@@ -398,12 +424,13 @@ func (x *cexec) Check(res *vsched.Result) *eng.Violation {
 		}
 		for c := range x.final[r] {
 			adds, rems := x.effects(r, c)
-			sure, since := surelyWants(adds, rems)
-			if !sure {
+			listed, since := listedWant(adds, rems)
+			if !listed {
 				continue
 			}
+			sure, _ := surelyWants(adds, rems)
 			if w.serves(r, c) {
-				return eng.V("want-unanswered", "quiescence", fmt.Sprintf("at final quiescence (engine idle, receiver waiting on the outbox, thaw ticker fired) the accepted want %s of p%d is still unanswered although the block is in the store\n%s", cname(c), r+1, logStr), "concurrent", "true", "block_added_concurrently", fmt.Sprint(c == cC))
+				return eng.V("want-unanswered", "quiescence", fmt.Sprintf("at final quiescence (engine idle, receiver waiting on the outbox, thaw ticker fired) the want %s of p%d is on the server's want-list (accepted) and still unanswered although the block is in the store\n%s", cname(c), r+1, logStr), "concurrent", "true", "block_added_concurrently", fmt.Sprint(c == cC), "removal_overlapping_the_want", fmt.Sprint(!sure))
 			}
 			needDH := false
 			for _, a := range adds {
@@ -469,6 +496,10 @@ func concScripts() []*cscript {
 		{name: "notify-race-silent", cfg: one, threads: [][]string{{"r1:bC3"}, {"new:C"}}, rounds: 1, bq: 1, bt: 1},
 		{name: "overflow-race", cfg: config{L: 1, R: 16, T: 1}, threads: [][]string{{"r1:bA1", "r1:bE4"}}, rounds: 2, bq: 1, bt: 2},
 		{name: "disconnect-race", cfg: one, threads: [][]string{{"r1:bA1"}, {"d1"}}, rounds: 2, bq: 0, bt: 1},
+		// the disconnect handler of the peer's old connection racing traffic that concerns the same peer:
+		// a want from its new connection, an announcement of a block it wants
+		{name: "disconnect-vs-want", cfg: one, threads: [][]string{{"d1"}, {"r1:bA1"}}, rounds: 1, bq: 1, bt: 2},
+		{name: "disconnect-vs-notify", cfg: one, setup: []string{"r1:bC3"}, threads: [][]string{{"new:C"}, {"d1"}}, rounds: 1, bq: 1, bt: 1},
 		// the peer upgrades want-have -> want-block while the HAVE envelope is between outbox and MessageSent, then cancels
 		{name: "upgrade-vs-sent", cfg: config{L: 2, R: 0, T: 1}, threads: [][]string{{"r1:hB2!", "r1:bB2", "r1:xB"}}, rounds: 2, bq: 1, bt: 2},
 		// two messages of the SAME peer handled concurrently while its want-list {A1, B2} is full (all blocks
